@@ -79,17 +79,21 @@ def rows(split, with_observed, b0: Real, b1: Real, c0: Real, c1: Real):
 
 @harness("C05.daily", prop="C05", cases=[c for c in CASES if c["with_observed"]])
 def independent(split, with_observed, b0: Real, b1: Real, c0: Real, c1: Real):
-    """Non-interference: two runs on rows that differ ONLY in the observed cell (value and NaN/inf tag); whenever
-    both produce a prediction, every model output is identical.  (No branch of the execution may depend on the
-    observed cell, so one symbolic path represents both runs.)"""
+    """Non-interference by self-composition: the real _predict is executed on TWO frames that agree on everything but
+    the observed cell (independent value and NaN/inf tag); whenever both runs produce a prediction for the row, every
+    model output is identical.  (All pairs of paths of the two runs are explored.)"""
     [df, m, res] = run_predict(split, with_observed, b0, b1, c0, c1)
-    check("C05.daily.no_branch_on_observed", Not(path_depends_on("row.observed")))
-    pk = cell_kind(res, "predicted")
-    both = And(pk == NUM, renamed(pk, "row.observed") == NUM)
-    for col in ["predicted", "predicted_unc", "heating_load", "cooling_load"]:
-        v = cell_val(res, col)
-        check("C05.daily." + col, implies(both, v == renamed(v, "row.observed")))
-    check("C05.daily.model_split", implies(both, cell_val(res, "model_split") == renamed(cell_val(res, "model_split"), "row.observed")))
+    df2 = row_twin(df, ["observed"])
+    res2 = m._predict(df2)
+    both = And(cell_kind(res, "predicted") == NUM, cell_kind(res2, "predicted") == NUM)
+    for col in ["predicted", "predicted_unc", "heating_load", "cooling_load", "model_split"]:
+        check("C05.daily." + col, implies(both, cell_val(res, col) == cell_val(res2, col)))
+    # and omitting the usage column altogether gives the same values as any usage that lets the row be predicted
+    df3 = row_frame_drop(df, "observed")
+    res3 = m._predict(df3)
+    both3 = And(cell_kind(res, "predicted") == NUM, cell_kind(res3, "predicted") == NUM)
+    for col in ["predicted", "heating_load", "cooling_load"]:
+        check("C05.daily.absent." + col, implies(both3, cell_val(res, col) == cell_val(res3, col)))
 
 
 @harness("C13.route", prop="C13", cases=[{"split": s, "with_observed": True} for s in SPLITS])
